@@ -39,6 +39,17 @@ class FwdTicker(actors.Party):
         return {"op": "tick", "us": us}
 
 
+class Sibling(actors.Party):
+    """Another, unrelated store in the same process: its flushes are its own business."""
+
+    name = "sibling"
+
+    def step(self):
+        r = self.r
+        k = r.choice(["read", "read", "write", "bulk"])
+        return {"op": "sibling", "kind": k, "ev": {"ts": 1_600_000_000_000_000 + r.randrange(0, 1000) * 1_000_000, "off": 0, "dur": 0, "data": {}}}
+
+
 class C18(Check):
     prop = "C18"
     level = "fault_enumeration"
@@ -55,7 +66,7 @@ class C18(Check):
         ">11 s after the last possible flush while earlier writes were still buffered or it was itself a buffered write; "
         "distinct = (op-kind sequence, clock profile)"
     )
-    expected_probes = ["age_requirement_checked", "age_requirement_with_older_buffered", "clock_idle_over_10s", "fault_slow_statement", "no_requirement_under_11s", "fault_restart_dirty", "delete_live", "client_read"]
+    expected_probes = ["age_requirement_checked", "age_requirement_with_older_buffered", "clock_idle_over_10s", "fault_slow_statement", "no_requirement_under_11s", "fault_restart_dirty", "delete_live", "client_read", "sibling_store_traffic"]
     assumptions = [
         "the store reads the wall clock through Python's datetime/time (the seam); every virtual-time failure is re-run under the real clock before it is reported",
         "'about ten seconds' is taken as: required beyond 11 s, nothing required up to 11 s",
@@ -85,15 +96,17 @@ class C18(Check):
         parties.append(actors.Admin(rs["admin"], cfg, buckets))
         parties.append(FwdTicker(rs["tick"], cfg))
         parties.append(actors.Operator(rs["oper"], cfg))
-        weights = {"importer": 3.0, "editor": r.choice([0.3, 1.0, 2.0]), "reader": r.choice([0.0, 0.1, 0.4]), "admin": r.choice([0.0, 0.1]), "ticker": r.choice([1.0, 2.5]), "operator": r.choice([0.0, 0.05])}
+        parties.append(Sibling(rs["sib"], cfg))
+        weights = {"sibling": r.choice([0.0, 0.0, 0.5, 1.5]), "importer": 3.0, "editor": r.choice([0.3, 1.0, 2.0]), "reader": r.choice([0.0, 0.1, 0.4]), "admin": r.choice([0.0, 0.1]), "ticker": r.choice([1.0, 2.5]), "operator": r.choice([0.0, 0.05])}
         nsteps = r.choice([3, 5, 8, 15, 30, 60] + ([120, 240] if tier == "thorough" else []))
         sched = [s for s in actors.schedule(rs["sched"], parties, weights, nsteps) if s["op"] != "new_datastore"]
         steps += sched
-        return {"backend": "sqlite", "steps": steps, "lat": lat, "clock": clock}
+        return {"backend": "sqlite", "steps": steps, "lat": lat, "clock": clock, "tz_off_min": r.choice([0, 0, -300, 180, 330, -720])}
 
     def start(self, world, run):
         if run.get("real_clock"):
             seams.CLOCK.real = True
+        seams.CLOCK.set_local_offset(run.get("tz_off_min", 0))
         world.open()
         self._t0 = world.t_open
         self._nt = False
@@ -185,7 +198,7 @@ class C18(Check):
             if res["status"] == "violation" and res["tag"] == result["tag"]:
                 return True, "reproduced under the real clock (%.1f s of real sleeping)" % (total / 1e6)
             return False, "virtual-time failure did NOT reproduce under the real clock (status %s): the clock seam may be dead" % res["status"]
-        canary = {"backend": "sqlite", "steps": self.CANARY, "clock": "canary"}
+        canary = {"backend": "sqlite", "steps": self.CANARY, "clock": "canary", "tz_off_min": run.get("tz_off_min", 0)}
         v = self.execute(dict(canary), os.path.join(seams.SCRATCH_ROOT, "canary-virtual"))
         r = self.execute(dict(canary, real_clock=True), os.path.join(seams.SCRATCH_ROOT, "canary-real"))
         if v["status"] == r["status"] and v["status"] in ("ok", "violation"):
